@@ -68,6 +68,11 @@ Tpl ==
     RCYC  |-> Ref(<< <<"Node", SObj(Props2("v", SInt, "next", SRef("Node")), {"v"})>> >>, {"Node"}),
     RUSE  |-> Ref(<< <<"Holder", SObj(Props1("n", SRef("Node")), {})>> >>, {}),
     TRefNode |-> Typ(SRef("Node"), "", {}),
+    (* an untagged union of references to string enums: its conversions (FromStr, Display) are decided
+       when it is finalised, which must not depend on later, unrelated additions *)
+    RCH   |-> Ref(<< <<"Choice", SOneOf(<<SRef("Left"), SRef("Right")>>)>>,
+                     <<"Left", [type |-> "string", enum |-> << [t |-> "str", c |-> <<"l">>] >>]>>,
+                     <<"Right", [type |-> "string", enum |-> << [t |-> "str", c |-> <<"r">>] >>]>> >>, {"Choice"}),
     ROOT  |-> Root(Titled(SObj(Props1("a", SRef("A")), {}), "Root"), [A |-> ObjA], {}) ]
 
 Names == DOMAIN Tpl
